@@ -10,8 +10,6 @@ RULE = ("handler outcome (23 return values: None/False/0/negative/>255/bool/nume
         "source file, from exec'd source-less code, from a file containing markup) x verbosity {normal,-v,-vv,-vvv} x 8 pre-handle "
         "listener set-ups (pass / handle / handle+stop / fail) x exception catching on; non-trivial = distinct (outcome kind, "
         "exception shape, listener behaviour); distinct by the whole case")
-THEOREMS = ["run_status", "handler_once", "status_zero_iff", "exception_reported", "exception_reported_rendered", "renderer_failure_unreachable",
-            "nothing_escapes_with_renderer"]
 TRUSTED = ["the report renderer is the trace model of C20 (Proofs/RunTraceLemmas.v composes it with the run model); Run.exn carries only the "
            "two flags the run logic reads - class name, message, frames and solutions of the exception are universally quantified inputs"]
 ASSUMPTIONS = ["SystemExit / GeneratorExit are outside the quantifier; KeyboardInterrupt maps to status 1 without a report by design"]
